@@ -233,8 +233,15 @@ pub enum Op {
     /// take the engine apart and put it together again from its public parts:
     /// how 0: `Engine::new(e.voices.clone(), e.condition.clone())` (the condition was customised
     /// *before* `Engine::new`, as a front end that maps command-line options onto a Condition does);
-    /// how 1: struct literal `Engine { condition, voices }`; how 2: `e.condition = e.condition.clone()`
+    /// how 1: struct literal `Engine { condition, voices }`; how 2: `e.condition = e.condition.clone()`;
+    /// how 3: a new `VoiceSet` over deep copies of the voices (equal content, other allocations, nothing
+    /// shared; the slot keeps those `Arc`s); how 4: a new `VoiceSet` over the harness's cached `Arc`s
+    /// (equal voices share one allocation)
     Rebuild { e: usize, how: u8 },
+    /// the caller keeps the `Arc<Voice>`s of an engine it built (see `Rebuild` how 3), drops the engine,
+    /// overwrites the voices in place through `Arc::get_mut` with other voices of the same metadata, and
+    /// builds the engine again: other content at the same addresses
+    ReplaceInPlace { e: usize, voices: Vec<VoiceRef> },
     Set { e: usize, s: Setter },
     SetW { e: usize, which: Which, w: Vec<f64> },
     /// C19: VoiceSet::new(voices) where voice `mutate.0` has metadata field `mutate.1` changed
@@ -251,6 +258,9 @@ pub enum Op {
     /// step with fperiod-sized buffers until the generator is exhausted (at most `max` steps)
     Drain { g: usize, max: usize },
     DropGen { g: usize },
+    /// forget every engine, generator and recorded waveform: the boundary between two runs that were
+    /// executed in the same process (group replay of a violation that needs its predecessors' residue)
+    Reset,
 }
 
 #[derive(Clone, Debug, PartialEq)]
@@ -284,6 +294,7 @@ impl TOp {
             Op::Reload { e, voices } => format!("t{} reload e{} {}", t, e, vrefs(voices)),
             Op::DropEngine { e } => format!("t{} dropengine e{}", t, e),
             Op::Rebuild { e, how } => format!("t{} rebuild e{} {}", t, e, how),
+            Op::ReplaceInPlace { e, voices } => format!("t{} inplace e{} {}", t, e, vrefs(voices)),
             Op::Set { e, s } => format!("t{} set e{} {}", t, e, s.to_text()),
             Op::SetW { e, which, w } => {
                 let ws: Vec<String> = w.iter().map(|x| fx(*x)).collect();
@@ -311,6 +322,7 @@ impl TOp {
             Op::Finish { g } => format!("t{} finish g{}", t, g),
             Op::Drain { g, max } => format!("t{} drain g{} {}", t, g, max),
             Op::DropGen { g } => format!("t{} dropgen g{}", t, g),
+            Op::Reset => format!("t{} reset", t),
         }
     }
 
@@ -327,6 +339,7 @@ impl TOp {
             "reload" => Op::Reload { e: slot(w.get(2)?, 'e')?, voices: parse_vrefs(w.get(3)?)? },
             "dropengine" => Op::DropEngine { e: slot(w.get(2)?, 'e')? },
             "rebuild" => Op::Rebuild { e: slot(w.get(2)?, 'e')?, how: w.get(3)?.parse().ok()? },
+            "inplace" => Op::ReplaceInPlace { e: slot(w.get(2)?, 'e')?, voices: parse_vrefs(w.get(3)?)? },
             "set" => Op::Set { e: slot(w.get(2)?, 'e')?, s: Setter::from_words(&w[3..])? },
             "setw" => {
                 let ws = *w.get(4)?;
@@ -366,6 +379,7 @@ impl TOp {
             "finish" => Op::Finish { g: slot(w.get(2)?, 'g')? },
             "drain" => Op::Drain { g: slot(w.get(2)?, 'g')?, max: w.get(3)?.parse().ok()? },
             "dropgen" => Op::DropGen { g: slot(w.get(2)?, 'g')? },
+            "reset" => Op::Reset,
             _ => return None,
         };
         Some(TOp { task, op })
@@ -380,6 +394,7 @@ impl TOp {
             Op::Reload { .. } => "reload",
             Op::DropEngine { .. } => "dropengine",
             Op::Rebuild { .. } => "rebuild",
+            Op::ReplaceInPlace { .. } => "inplace",
             Op::Set { .. } => "set",
             Op::SetW { .. } => "setw",
             Op::VsNew { .. } => "vsnew",
@@ -391,6 +406,7 @@ impl TOp {
             Op::Finish { .. } => "finish",
             Op::Drain { .. } => "drain",
             Op::DropGen { .. } => "dropgen",
+            Op::Reset => "reset",
         }
     }
 }
